@@ -10,6 +10,7 @@
 -/
 import GojaModel.C05.Lemmas
 import GojaModel.C05.StrLemmas
+import GojaModel.C05.ParseInt
 
 namespace GojaModel.C05.Props
 open GojaModel GojaModel.Num GojaModel.C05
@@ -254,6 +255,25 @@ theorem parseFloat_path_agree (t : List Nat) (hne : t.isEmpty = false)
 /-- non-vacuity of the hypotheses above: "1.5e3" satisfies them all -/
 example : StrNum.mechT (StrNum.str "1.5e3") = StrNum.Res.num false 15 2 ∧ StrNum.stringToInt (StrNum.str "1.5e3") = none ∧
     StrNum.goSpecial (StrNum.str "1.5e3") = false := by decide
+
+/-- `parseInt`'s accumulation loop (cutoff = MaxInt64/base + 1, `n >= cutoff`, `n1 < n || n1 > maxVal`) with Go's
+WRAPPING int64 arithmetic never wraps: for every base 2..36 and every digit list, an int64 result is the exact value
+of the digits read and lies in [0, MaxInt64]; otherwise `parseLargeInt` (math/big) takes over. -/
+theorem parseInt_loop_no_wrap {base : Nat} (hb : 2 ≤ base) (hb36 : base ≤ 36) (ds : List Nat) (r : Int)
+    (h : ParseInt.loop base 0 ds = .small r) : r = ParseInt.exact base 0 ds ∧ 0 ≤ r ∧ r ≤ maxInt64 :=
+  ParseInt.loop_exact hb hb36 ds 0 r (by decide) (by decide) h
+
+/-- … and the hand-over happens only for values ≥ cutoff (> 2^53), so `parseLargeInt`'s raw `valueFloat` is canonical. -/
+theorem parseInt_large_is_big {base : Nat} (hb : 2 ≤ base) (hb36 : base ≤ 36) (ds : List Nat)
+    (h : ParseInt.loop base 0 ds = .large) : ParseInt.cutoff base ≤ ParseInt.exact base 0 ds :=
+  ParseInt.large_is_big hb hb36 ds 0 (by decide) (by decide) h
+
+/-- Regression lemma (seeded change m3: `n > cutoff` for `n >= cutoff`): the accumulator wraps —
+`parseInt("8000000000000000", 16)` would be -2^63; the real loop hands over. -/
+theorem parseInt_gt_prefix_witness :
+    ParseInt.loopGt 16 0 (ParseInt.cps "8000000000000000") = .small (-(2 ^ 63)) ∧
+    ParseInt.loop 16 0 (ParseInt.cps "8000000000000000") = .large ∧
+    ParseInt.exact 16 0 (ParseInt.cps "8000000000000000") = 2 ^ 63 := by decide
 
 /-! ## 6. Hypotheses are satisfiable / non-vacuity (tests on literals) -/
 
